@@ -17,6 +17,7 @@ func main() {
 		fmt.Fprintln(os.Stderr, "usage: verifharness <subcommand> ...")
 		os.Exit(3)
 	}
+	registerCompounds()
 	switch os.Args[1] {
 	case "child":
 		start, _ := strconv.Atoi(os.Args[3])
